@@ -4,6 +4,7 @@
   harness.py replay <replay.json>                            re-run a stored failing case
 Prints one JSON object on the last line.  Everything here is *bounded* evidence and is reported as such."""
 import importlib
+import zlib
 import json
 import os
 import random
@@ -142,7 +143,7 @@ def main(argv):
         prop = argv[1]
         targets = [t for t, c in reg.contracts.items() if prop in c.get("props", []) and t in SCENARIOS]
         for t in targets:
-            r = run_target(reg, t, random.Random(seed * 7919 + hash(t) % 1000), tier)
+            r = run_target(reg, t, random.Random(seed * 7919 + zlib.crc32(t.encode()) % 1000), tier)
             res["evaluations"] += r["cases"]
             res["distinct"] += r["distinct"]
             res["failures"] += r["failures"]
